@@ -160,4 +160,22 @@ func TestC04Enum(t *testing.T) {
 		}
 	}
 	global.CountN("enum.state_byte_pairs", len(c04Templates)*256)
+	// every word of a lexicon of literal look-alikes in every value position
+	for _, tpl := range []string{"[§]", "[1,§,2]", "{\"a\":§}", "{\"a\":[§]}", "[{\"k\":§}]", "[§", "{\"a\":§"} {
+		for _, w := range c04Words {
+			in := strings.Replace(tpl, "§", w, 1)
+			if err := RunCase(p, &C04Case{Mode: "bytes", Bytes: RawBytes(in)}); err != nil {
+				t.Fatalf("C04 word enumeration %q with %q: %v", tpl, w, err)
+			}
+		}
+	}
+	global.CountN("enum.literal_words", 7*len(c04Words))
 }
+
+var c04Words = []string{"NaN", "nan", "NAN", "Inf", "inf", "+Inf", "-Inf", "Infinity", "-Infinity", "+infinity", "1e999", "-1e999", "1e-999",
+	"0x10", "0X1F", "0b101", "0o17", "017", "1_000", "0x1p4", "0x1.8p1", "1e5", "1E5", ".5", "5.", "+1", "--1", "TRUE", "True", "T", "F", "t", "f",
+	"FALSE", "nil", "None", "undefined", "NULL", "Null", "127", "128", "-128", "-129", "255", "256", "32767", "32768", "65535", "65536",
+	"2147483647", "2147483648", "-2147483649", "4294967296", "9007199254740993", "9223372036854775807", "9223372036854775808",
+	"-9223372036854775808", "-9223372036854775809", "18446744073709551616", "1.7976931348623157e308", "1.7976931348623159e308", "5e-324", "2e-324",
+	"0.1", "-0", "-0.0", "0e0", "1e+0", "1e-0", "00", "-", "+", ".", "e", "E5", "0x", "0b", "1e", "1e+", "truefalse", "nulll", "tru", "nul"}
+
